@@ -293,6 +293,8 @@ class FuncInfo(object):
 #       early-return loop are the same thing to every rule
 #   C9  `x = A if c else B` / `return A if c else B`     ->  the if statement
 #       (so that the condition is a test atom of the flow graph)
+#   C10 `x = next((E for v in it if c), D)`              ->  `for v in it: if c: x = E; break`
+#       with `else: x = D`
 #   C6  `t = E` immediately followed by a statement in which t (bound once, read
 #       once in the function) is the first thing evaluated apart from plain
 #       name / attribute / constant loads                 ->  E substituted for t
@@ -593,7 +595,40 @@ def _expand_conditional_expressions(fn):
         blk[i] = new
 
 
+def _expand_next_searches(fn):
+  for parent in ast.walk(fn):
+    for blk in _canon_blocks(parent):
+      for i, st in enumerate(blk):
+        if not (isinstance(st, ast.Assign) and len(st.targets) == 1 and
+                isinstance(st.targets[0], ast.Name)):
+          continue
+        v = st.value
+        if not (isinstance(v, ast.Call) and isinstance(v.func, ast.Name) and
+                v.func.id == 'next' and len(v.args) == 2 and not v.keywords and
+                isinstance(v.args[0], ast.GeneratorExp) and
+                len(v.args[0].generators) == 1):
+          continue
+        gen = v.args[0].generators[0]
+        hit = [ast.Assign(targets=[st.targets[0]], value=v.args[0].elt),
+               ast.Break()]
+        inner = hit
+        if gen.ifs:
+          test = gen.ifs[0] if len(gen.ifs) == 1 else ast.BoolOp(
+              op=ast.And(), values=list(gen.ifs))
+          inner = [ast.If(test=test, body=hit, orelse=[])]
+        loop = ast.For(target=gen.target, iter=gen.iter, body=inner,
+                       orelse=[ast.Assign(targets=[copy.deepcopy(st.targets[0])],
+                                          value=v.args[1])])
+        for t in ast.walk(loop.target):
+          if isinstance(t, ast.Name):
+            t.ctx = ast.Store()
+        ast.copy_location(loop, st)
+        ast.fix_missing_locations(loop)
+        blk[i] = loop
+
+
 def _canon_function(fn):
+  _expand_next_searches(fn)
   _expand_conditional_expressions(fn)
   _expand_quantifier_returns(fn)
   _propagate_aliases(fn)
@@ -714,6 +749,11 @@ class Module(object):
     node._parent = parent
     node._module = self
     for c in ast.iter_child_nodes(node):
+      # expression contexts and operator tokens are process-wide singletons:
+      # never hang tree links on them
+      if isinstance(c, (ast.expr_context, ast.operator, ast.unaryop,
+                        ast.boolop, ast.cmpop)):
+        continue
       self._annotate(c, node)
 
   def _index(self, node, prefix, cls):
